@@ -46,12 +46,13 @@ package http2
 //@ pure func capMD(sc *serverConn) *metadata.Metadata = ctxMeta(sc.baseCtx)
 
 //@ func (*serverConn).processFrame :: sc, f -> err
-//@   props C03,C13,C10,C08
+//@   props C03,C13,C10,C08,C12
 //@   requires sc != nil && f != nil && frameOK(f) && sc.inflow.avail >= 0
 //@   requires [C12,C13:connection-invariant] connInv(sc) && frameWF(f)
 //@   requires hasMeta(sc.baseCtx) ==> ctxMeta(sc.baseCtx) != nil
 //@   structural [C03,C07:captured-before-processing] stores_before_calls HTTP2FingerprintingFrames process
 //@   ensures [C13,C08:accepted-frames-reach-their-handler] old(accepted(sc, f)) ==> procLog == old(procLog) ++ ite(isptr(DataFrame, f), seq[int]{0}, ite(isptr(MetaHeadersFrame, f), seq[int]{1}, ite(isptr(PriorityFrame, f), seq[int]{2}, ite(isptr(RSTStreamFrame, f), seq[int]{3}, ite(isptr(SettingsFrame, f), seq[int]{4}, ite(isptr(PingFrame, f), seq[int]{6}, ite(isptr(GoAwayFrame, f), seq[int]{7}, ite(isptr(WindowUpdateFrame, f), seq[int]{8}, seq[int]{}))))))))
+//@   ensures [C12:data-discarded-after-goaway-is-refunded-in-full-padding-included] (old(sc.sawFirstSettings) || isptr(SettingsFrame, f)) && old(discarded(sc, f)) ==> connLedger(sc) == old(connLedger(sc))
 //@   ensures [C13:discarded-or-early-frames-reach-no-handler] !old(accepted(sc, f)) ==> procLog == old(procLog)
 //@   ensures [C13:push-promise-from-client-is-protocol-error] old(accepted(sc, f)) && isptr(PushPromiseFrame, f) ==> isConnErr(err, 1)
 //@   ensures [C13:first-frame-must-be-settings] !old(sc.sawFirstSettings) && !isptr(SettingsFrame, f) ==> isConnErr(err, 1)
